@@ -105,7 +105,7 @@ def run(ctx):
     except vlib.BuildError as ex:
         exe = None
         fails.append({"kind": "extraction", "error": str(ex)[-1500:]})
-    n = 80 if ctx.quick else 800
+    n = 80 if ctx.quick else 500
     progs = [tdgen.generate(ctx.rng, size=ctx.rng.choice([2, 3, 5, 8] if ctx.quick else [3, 5, 8, 12])) for _ in range(n)]
     wss = [p.workspace() for p in progs]
     I, C, M = batches(bindir, exe, wss)
@@ -224,7 +224,7 @@ def run(ctx):
     audit = {"tool": tool, "accepted": 0, "mutants_rejected": 0, "skipped": 0, "disagree": []}
     if tool:
         d = os.path.join(vlib.CACHE, "scope", "audit13-%d" % os.getpid())
-        limit = 12 if ctx.quick else 100
+        limit = 12 if ctx.quick else 60
         for p in progs:
             if audit["accepted"] >= limit:
                 break
